@@ -2,5 +2,5 @@
 from . import latfam, util
 
 globals().update(latfam.module('C05', util.theorems('C05'),
-    'contexts as C03; observation = per concept the sets of upper and lower neighbour positions (no repeats) and Context.neighbors(objs) (label and raw form) for all object subsets (<=6 quick / 9 thorough objects, else structured+random); non-trivial = a concept with upper covers of different sizes or a rejected candidate',
-    extra_targets=['Tie/Lindig.vo', 'Tie/Matrices.vo'], partial=''))
+    'contexts as C03 (EXH(10) in the thorough tier); observation = per concept the sets of upper and lower neighbour positions (no repeats) and Context.neighbors(objs) (label and raw form) for all object subsets (<=6 quick / 7 thorough objects, else structured+random); non-trivial = a concept with upper covers of different sizes or a rejected candidate',
+    extra_targets=['Tie/Lindig.vo', 'Tie/Matrices.vo'], partial='', exh=(9, 10)))
